@@ -91,6 +91,11 @@ def ground_compare(a, b):
     return None
 
 
+def rel_close(a, b, rel=1e-9):
+    a, b = mpmath.mpf(a), mpmath.mpf(b)
+    return abs(a - b) <= rel * max(abs(a), abs(b))
+
+
 def eq_value_vc(name, ctx, out, ref, guard, idx, twin=False):
     """outcome `out` (kind value) must equal `ref` wherever `guard` holds"""
     t = val_term(out)
@@ -121,6 +126,12 @@ def eq_value_vc(name, ctx, out, ref, guard, idx, twin=False):
             return None
         if not orc.close(o["mp"], r):
             return f"returned {mpmath.nstr(o['mp'], 17)} but the reference value is {mpmath.nstr(r, 17)}"
+        # small magnitudes: the tolerance above is absolute near zero.  The path's own formula (the code's real-arithmetic trace t) is
+        # evaluated exactly: if IT differs from the reference relatively, and the real run followed that formula, the difference is not rounding.
+        te = mp_ref(t, val)
+        if te is not None and not rel_close(te, r) and rel_close(o["mp"], te, rel=1e-6):
+            return (f"returned {mpmath.nstr(o['mp'], 17)} (the path's formula gives {mpmath.nstr(te, 17)} in exact arithmetic) but the reference "
+                    f"value is {mpmath.nstr(r, 17)}")
         return None
 
     return VC(name, z3.And(guard, t != refq), judge)
@@ -152,12 +163,26 @@ def agree_vc(name, ctx, outs, i, j, guard=None, twin=False):
             if couts[i]["kind"] == couts[j]["kind"]:
                 return None
             return f"outcome kinds differ: {couts[i]['kind']} vs {couts[j]['kind']}"
-        return VC(name + ":kind", guard, judge, {"kinds": [a["kind"], b["kind"]]})
+        return VC(name + ":kind", guard, judge, {"kinds": [a["kind"], b["kind"]], "candidates": HASH_COLLISION_POINTS})
     if a["kind"] != "value":
         return None
+    if isinstance(a.get("value"), list) and isinstance(b.get("value"), list):
+        return _agree_lists(name, a["value"], b["value"], i, j, guard)
     ta, tb = val_term(a), val_term(b)
     if ta is None or tb is None:
-        return None
+        # not numbers: equal only if the raw values are the same object / compare equal as plain Python values
+        va, vb = a.get("value"), b.get("value")
+        try:
+            same = (va is vb) or (type(va) is type(vb) and isinstance(va, (str, bool, type(None), int, float, tuple)) and va == vb)
+        except Exception:  # noqa
+            same = False
+        if same:
+            return None
+
+        def judge_raw(val, couts):
+            x, y = couts[i], couts[j]
+            return None if (x.get("kind") == y.get("kind") and x.get("value") == y.get("value")) else f"results differ: {str(x.get('value'))[:120]} vs {str(y.get('value'))[:120]}"
+        return VC(name + ":non-numeric", guard, judge_raw, {"a": repr(va)[:120], "b": repr(vb)[:120]})
     if twin:
         tb = tb + 1
     if ta.eq(tb):
@@ -174,6 +199,29 @@ def agree_vc(name, ctx, outs, i, j, guard=None, twin=False):
             return f"values differ: {mpmath.nstr(x['mp'], 17)} vs {mpmath.nstr(y['mp'], 17)}"
         return None
     return VC(name, z3.And(guard, ta != tb), judge, {"candidates": HASH_COLLISION_POINTS})
+
+
+def _agree_lists(name, xs, ys, i, j, guard):
+    """two outcomes that are lists of numbers (e.g. all components of a located differential)"""
+    if len(xs) != len(ys):
+        return VC(name + ":length", guard, lambda val, couts: "lists of different length", {})
+    try:
+        ts = [(sx.R(x), sx.R(y)) for x, y in zip(xs, ys)]
+    except sx.Unsupported:
+        return None
+    diffs = [ta != tb for ta, tb in ts if not ta.eq(tb)]
+    if not diffs:
+        return None
+
+    def judge(val, couts):
+        x, y = couts[i], couts[j]
+        if x["kind"] != "value" or y["kind"] != "value" or not x.get("mp_list") or not y.get("mp_list"):
+            return None
+        for u, v in zip(x["mp_list"], y["mp_list"]):
+            if not orc.close(u, v):
+                return f"values differ: {mpmath.nstr(u, 17)} vs {mpmath.nstr(v, 17)}"
+        return None
+    return VC(name, z3.And(guard, z3.Or(diffs)), judge, {"candidates": HASH_COLLISION_POINTS})
 
 
 # CPython's real numeric-hash collisions, tried first by the replay gate (a hash-keyed table is explored symbolically on its colliding path)
